@@ -144,7 +144,7 @@ def main(argv=None):
     thms, problems, listed = ({}, ['property module did not build'], [])
     if pok:
         thms, problems, listed = core.audit(prop)
-    forb = core.forbidden_scan()
+    forb = core.forbidden_scan(prop)
     t_problems = []
     if not tie_ok:
         t_problems.append('translator: ' + tie_msg)
